@@ -168,7 +168,10 @@ func (d *PathDecoder) isPosInsideAttrExpr(attr *hclsyntax.Attribute, pos hcl.Pos
 	}
 
 	// edge case: near end (typically newline char)
-	if attr.Expr.Range().End.Byte == pos.Byte {
+	// (range of an empty expression ends at the beginning of next line
+	// which may already belong to another attribute or block)
+	if attr.Expr.Range().End.Byte == pos.Byte &&
+		!(isEmptyExpression(attr.Expr) && attr.Expr.Range().End.Line > attr.Expr.Range().Start.Line) {
 		return true
 	}
 
